@@ -241,5 +241,5 @@ Definition decode_mpc_sv467 (f : list Z) : result (list Z) :=
       Ok [version; 2; 44100; frames * 1152 - 576; 44100; bitrate; -100000; -100000; -100000; -100000].
 (* EXTRACT: InfoSimple.build_dsf InfoSimple.decode_dsf InfoSimple.build_tta InfoSimple.decode_tta
             InfoSimple.wavpack_flags InfoSimple.build_wavpack_block InfoSimple.decode_wavpack
-            InfoSimple.build_ape InfoSimple.decode_ape InfoSimple.build_ofr InfoSimple.decode_ofr
+            InfoSimple.build_ape InfoSimple.build_ape_old InfoSimple.decode_ape InfoSimple.build_ofr InfoSimple.decode_ofr
             InfoSimple.mpc7_flags InfoSimple.build_mpc7 InfoSimple.decode_mpc_sv467 *)
